@@ -61,7 +61,7 @@ def run_schedule(o, R, steps=60, ntuners=None, score_of=None, outcomes=OUTCOMES,
         w = R.choice(tun)
         if w in hold and R.random() < 0.7:
             end(w)
-        elif w not in hold:
+        elif w not in hold and w not in stopped:       # a worker that was told STOPPED has left
             ask(w)
         if best_every and R.random() < best_every:
             n = R.randint(1, len(o.trials) + 1)
